@@ -182,7 +182,13 @@ func c11GenDoc(r *Rng, tame bool) c11Doc {
 	if r.Chance(60) {
 		op["requestBody"] = J{"content": J{"application/json": J{"schema": J{"type": "object", "properties": J{"kind": add("body")}}}}}
 	}
-	d.Doc = J{"openapi": "3.0.3", "info": J{"title": "t", "version": "1"}, "paths": J{"/x": J{"post": op}}, "components": J{"schemas": schemas}}
+	paths := J{"/x": J{"post": op}}
+	if r.Chance(50) {
+		// an enum on the path parameter of an operation that has nothing else: no other parameter, no body
+		paths["/y/{kind}"] = J{"get": J{"operationId": "getKind", "responses": J{"204": J{"description": "d"}},
+			"parameters": []interface{}{J{"name": "kind", "in": "path", "required": true, "schema": add("path-parameter-alone")}}}}
+	}
+	d.Doc = J{"openapi": "3.0.3", "info": J{"title": "t", "version": "1"}, "paths": paths, "components": J{"schemas": schemas}}
 	return d
 }
 
